@@ -124,6 +124,56 @@ def _trace_and_judge(ctx, rep, op, n_prior, base, model_ok):
     shutil.rmtree(path, ignore_errors=True)
 
 
+def _shared_handle_overlap(ctx, rep, base, model_ok):
+    """two threads through ONE Table object with overlapping commits (A held before its manifest-list write while B commits completely):
+    at B's pointer flip every file B's version reaches is durable — whatever state the shared backend object carries for A"""
+    path = os.path.join(base, "shared-overlap")
+    t = _pre_state(path, 1)
+    del t
+    pre_files = set(reader.DirStore(path).list())
+    try:
+        lines = systrace.run_traced("shared-overlap", path, {}, base)
+    except RuntimeError as e:
+        rep.notes.append(f"shared-overlap: traced child failed: {str(e)[-200:]}")
+        return
+    cut = next((i for i, ln in enumerate(lines) if ".MARK" in ln), None)
+    if cut is None or not os.path.exists(path + ".BNAME"):
+        rep.notes.append("shared-overlap: marker not found in the trace")
+        return
+    bname = open(path + ".BNAME").read().strip()
+    lines = lines[:cut]
+    evs, ids, meta = systrace.abstract(lines, path)
+    rep.evaluations += 1
+    rep.distribution["op:shared-overlap"] += 1
+    rep.nontrivial(["c16", "shared-overlap"])
+    real = os.path.realpath(path)
+    hint_path = os.path.join(real, "metadata.version-hint.text")
+    case = {"kind": "trace", "op": "two threads, one Table object, overlapping commits", "judged_version": bname}
+    if bname.isdigit():
+        bname = f"v{bname}.metadata.json"
+    reach = reader.reachable(path, name=bname) | {"metadata/" + bname}
+    reach_ids = sorted(ids[os.path.join(real, r)] for r in reach if os.path.join(real, r) in ids)
+    pre_ids = [f"{ids[os.path.join(real, r)]}/{ids.get(os.path.dirname(os.path.join(real, r)), 0)}" for r in pre_files if os.path.join(real, r) in ids]
+    dirs = ",".join(f"{i}/{ids.get(os.path.dirname(p), 0)}" for p, i in ids.items()) or "-"
+    if hint_path not in ids:
+        rep.violate("C16:no-pointer-write-traced", "shared-overlap: the trace contains no write of the pointer", case)
+        return
+    if not model_ok:
+        return
+    req = (f"fs.judge hint={ids[hint_path]} reach={','.join(map(str, reach_ids)) or '-'} pre={','.join(pre_ids) or '-'} dirs={dirs} | " + " ".join(evs))
+    verdict = driver.ask([req])[0]
+    if verdict != "durable":
+        k = int(verdict.rsplit(" ", 1)[-1]) if verdict.startswith("violation") else -1
+        rep.violate("C16:pointer-outruns-data", f"two threads sharing one Table object, commits overlapping: at the second thread's pointer flip {verdict}; "
+                    f"event {meta[k] if 0 <= k < len(meta) else '?'}", {**case, "events": [list(m) for m in meta[max(0, k - 6):k + 2]]})
+    shutil.rmtree(path, ignore_errors=True)
+    for ext in (".BNAME", ".MARK"):
+        try:
+            os.remove(path + ext)
+        except OSError:
+            pass
+
+
 def _fsync_faults(ctx, rep, base):
     """fsync can FAIL (EIO / ENOSPC at flush time): fail the k-th fsync of a regular file of an operation, for every k — if the pointer
     still advances, no file reachable from the new version may be the one whose flush failed (in-process; no strace needed)"""
@@ -358,6 +408,7 @@ def run(ctx, model_ok):
         for op in ("create", "append", "append2", "delfiles", "expire", "delsnap", "gc", "recreate", "append@tmpfs"):
             for n in (priors if op not in ("create", "recreate", "append@tmpfs") else ([0] if op == "create" else [1])):
                 _trace_and_judge(ctx, rep, op, n, base, model_ok)
+        _shared_handle_overlap(ctx, rep, base, model_ok)
         _fsync_faults(ctx, rep, base)
         _write_sizes(ctx, rep, base)
         _s3_uploads(ctx, rep)
